@@ -357,6 +357,27 @@ def run(ctx):
                                   instance=f"{b.name}: Ok returned exactly for [{CMIN}, {CMAX}]")
                 else:
                     detail = f"guard interval [{lo}, {hi}], unknown conditions {unknown}, reassigned={reassigned}; required exactly [{CMIN}, {CMAX}]"
+        if kind is None and b.argc == 1 and tystr(b.local_ty(1)) == "i64" and c.name == "conjure_object":
+            # K5 the value is built eagerly and *selected* by the range test (`in_range.then_some(SafeLong(v)).ok_or(..)`): the
+            # function is evaluated on the boundary values; it must return Ok(SafeLong(v)) exactly for v in range, so an
+            # out-of-range SafeLong never leaves it (decision table over the 9 boundary probes, not a path argument)
+            from .. import minterp as _mi
+            I_ = _mi.Interp(ctx.F, c, inline=lambda d_, rid: rid.startswith("conjure_object::") and rid != b.id, max_depth=4)
+            probes = [CMIN - 1, CMIN, CMIN + 1, -1, 0, 1, CMAX - 1, CMAX, CMAX + 1, -(1 << 63), (1 << 63) - 1]
+            try:
+                good = True
+                for v_ in probes:
+                    r_ = I_.run(b, [v_])
+                    is_ok = _mi.is_adt(r_) and r_[1] == "core::result::Result" and r_[2] == 0
+                    payload = r_[3][0] if is_ok and r_[3] else None
+                    val_ok = _mi.is_adt(payload) and payload[1] == SL and payload[3] and payload[3][0] == v_
+                    if (CMIN <= v_ <= CMAX) != bool(is_ok and val_ok) or (not (CMIN <= v_ <= CMAX) and not (_mi.is_adt(r_) and r_[2] == 1)):
+                        good = False
+                if good:
+                    kind, detail = "K5", f"selected by the range test: Ok(SafeLong(v)) exactly for {CMIN} <= v <= {CMAX} on {len(probes)} boundary probes, Err otherwise"
+                    guarded += 1
+            except _mi.Unsupported:
+                pass
         ok = kind is not None
         all_ok = all_ok and ok
         ctx.check(ok, "O2", where, f"{b.id}|construction-site",
@@ -420,7 +441,7 @@ def run(ctx):
                         o5 = False
                         ctx.violation("O5", x.loc(s["ln"]), f"{b.id}|lossy-cast", f"{b.id}: `{src} as {to}` on a route into the checked constructor: out-of-range input could wrap into range instead of being rejected")
         ctx.ok("O5", b.loc(), f"{b.id}: reaches SafeLong::new without lossy casts")
-    ctx.floor("O5", "conversion routes through SafeLong::new", routes, 3)
+    ctx.floor("O5", "conversion routes through SafeLong::new", routes, 1)
     # the std conversions used are the value-preserving ones
     for b in co.bodies:
         if b.trait == "core::convert::TryFrom" and ty_adt(b.self_ty) == SL:
@@ -443,7 +464,12 @@ def run(ctx):
     for b in fp:
         fs = [t for _, t in b.calls() if t["call"]["def"] == "core::str::traits::FromStr::from_str" and ty_adt(t["call"]["substs"][0]) == SL
               or (t["call"].get("name") == "parse" and any(ty_adt(x) == SL for x in t["call"]["substs"]))]
-        o5 &= ctx.check(len(fs) == 1, "O5", b.loc(), f"{b.id}|fromplain", "FromPlain for SafeLong must delegate to its FromStr", instance="FromPlain -> FromStr")
+        ok_fp = len(fs) == 1
+        if not ok_fp:
+            from . import c12 as _c12
+            fsb = [x for x in co.bodies if x.trait == "core::str::traits::FromStr" and x.name == "from_str" and ty_adt(x.self_ty) == SL]
+            ok_fp = len(fsb) == 1 and _c12.same_parser(co, b, fsb[0])
+        o5 &= ctx.check(ok_fp, "O5", b.loc(), f"{b.id}|fromplain", "FromPlain for SafeLong must delegate to its FromStr (or share its parsing function)", instance="FromPlain -> FromStr")
     o5 &= ctx.check(len(fp) == 1, "O5", "conjure_object", "fromplain-exists", "FromPlain for SafeLong missing", nontrivial=False)
     ctx.obligation("O5 routes use lossless conversions and the checked constructor", o5 and routes >= 8)
     # ---------------- O7 text routes accept every in-range integer: the parser sees the whole input, and an input is refused only
